@@ -158,6 +158,8 @@ def stmt_src(s, mode="full", indent=""):
         if T is None:
             return f"{indent}Signal {name} = {default};"
         return f'{indent}Signal {name} = ("{T}", {default});'
+    if k == "sigconst":
+        return f"{indent}Signal {s[1]} = {s[2]};"
     if k == "int":
         return f"{indent}int {s[1]} = {src(s[2], mode)};"
     if k == "sig":
@@ -297,6 +299,23 @@ class Interp:
             if name in sc:
                 return sc[name]
         raise RefError(f"undefined {name}")
+
+    def _coord(self, v):
+        """coordinates may be ints or Signal-typed compile-time constants (concrete values)"""
+        if isinstance(v, Sig):
+            val = v.val
+            if isinstance(val, int):
+                return val
+            try:
+                import z3 as _z3
+
+                sv = _z3.simplify(val)
+                if _z3.is_bv_value(sv):
+                    return sv.as_signed_long()
+            except Exception:  # noqa: BLE001
+                pass
+            return None
+        return v
 
     def _consume(self, name):
         """a reference consumes the TOP-LEVEL name only if it resolves to the global scope (not to a
@@ -516,6 +535,9 @@ class Interp:
             self.bind(name, Sig(T, v if v is not None else d.const(default)))
             if top:
                 self.toplevel_names.append(name)
+        elif k == "sigconst":
+            self.bind(s[1], Sig(None, d.const(s[2])))
+            self.consumed.add(s[1])  # a concrete helper constant, never checked as an output
         elif k == "int":
             v = self.ev(s[2])
             if not isinstance(v, int):
@@ -557,7 +579,7 @@ class Interp:
                 self.consumed.add(s[1])
         elif k == "place":
             _, name, proto, x, y, props = s
-            xv, yv = self.ev(x), self.ev(y)
+            xv, yv = self._coord(self.ev(x)), self._coord(self.ev(y))
             if not isinstance(xv, int) or not isinstance(yv, int):
                 raise RefError("non-constant coordinates")
             key = (proto, xv, yv)
